@@ -144,8 +144,9 @@ type Factory struct {
 	NewT      func() *Transport
 	// gates: a Listen for a gated URL parks (after "binding", before returning the acceptor) until OpenGate.
 	// One entry per Gate call; a URL may be gated several times (address reused by a later listener).
-	pending map[string]int             // gates set and not yet reached by a Listen
-	parked  map[string][]chan struct{} // Listen calls waiting
+	pending  map[string]int             // gates set and not yet reached by a Listen
+	parked   map[string][]chan struct{} // Listen calls waiting
+	failOnce map[string]int             // Listen calls that will fail
 }
 
 // Gate makes the next Listen for url park until OpenGate(url).
@@ -206,7 +207,24 @@ func (f *Factory) Connect(options *transport.Options) (transport.Transport, erro
 	return t, nil
 }
 
+// FailNextListen makes the next Listen for url fail (bind: address already in use).
+func (f *Factory) FailNextListen(url string) {
+	f.mu.Lock()
+	defer f.mu.Unlock()
+	if f.failOnce == nil {
+		f.failOnce = map[string]int{}
+	}
+	f.failOnce[url]++
+}
+
 func (f *Factory) Listen(options *transport.Options) (transport.Acceptor, error) {
+	f.mu.Lock()
+	if k := options.Address.Scheme + "://" + options.Address.Host; f.failOnce[k] > 0 {
+		f.failOnce[k]--
+		f.mu.Unlock()
+		return nil, errors.New("verif: mock listen: address already in use")
+	}
+	f.mu.Unlock()
 	a := &Acceptor{F: f, URL: options.Address.String()}
 	a.cond = sync.NewCond(&a.mu)
 	f.mu.Lock()
